@@ -143,7 +143,7 @@ async def wire_case(net, hyg, plan):
     w.populate(tree_for_users())
     viol = []
     mon = {"backend_path_inside_base": 0, "pwd_vs_model": 0}
-    state = {"user": None}
+    state = {"user": None, "targets": None, "rnfr": None}
     sess = Session(net, 2121)
 
     def on_call(spy, op, path):
@@ -161,6 +161,18 @@ async def wire_case(net, hyg, plan):
         mon["backend_path_inside_base"] += 1
         raw = str(path)
         flat = posixpath.normpath(raw)
+        if state.get("targets"):
+            # ... and it is about the location the command addressed (itself, its parent, or what lies below it)
+            mon["backend_path_is_addressed_location"] = mon.get("backend_path_is_addressed_location", 0) + 1
+            ok = False
+            for virt in state["targets"]:
+                t = posixpath.normpath(base + "/" + virt.lstrip("/")) if virt != "/" else posixpath.normpath(base)
+                if flat == t or flat == posixpath.dirname(t) or flat.startswith(t.rstrip("/") + "/"):
+                    ok = True
+            if not ok:
+                viol.append({"key": f"backend-path-not-the-addressed-location:{op}",
+                             "msg": f"user {user.login} (base {base}) step {sess.current_step}: back end {op}({raw}) while the command "
+                                    f"addresses virtual {sorted(state['targets'])}"})
         inside = flat == base or flat.startswith(base.rstrip("/") + "/")
         dotdot = ".." in pathlib.PurePosixPath(raw).parts
         if not inside or dotdot:
@@ -168,6 +180,25 @@ async def wire_case(net, hyg, plan):
             viol.append({"key": f"backend-path-outside-base:{op}",
                          "msg": f"user {user.login} (base {base}) during step {step}: back end {op}({raw})"})
     w.ctl.on_call = on_call
+    # the path used for permission lookup (public User.get_permissions) is the normalised absolute form of the location
+    # addressed; optional: skipped when that method is not there to be observed
+    perm_calls = []
+    orig_gp = getattr(aioftp.User, "get_permissions", None)
+    if orig_gp is not None:
+        def spy_gp(self_, path):
+            perm_calls.append(str(path))
+            return orig_gp(self_, path)
+        aioftp.User.get_permissions = spy_gp
+
+    def check_perm(verb, a, cwd_before, also=None):
+        want = norm(cwd_before, ".." if verb == "CDUP" else a)
+        for got in perm_calls:
+            mon["permission_lookup_path"] = mon.get("permission_lookup_path", 0) + 1
+            if got != want and got != also:
+                viol.append({"key": f"permission-lookup-path-not-normalised:{verb}",
+                             "msg": f"{verb} {a!r} from cwd {cwd_before!r}: permissions were looked up under {got!r}, the location "
+                                    f"addressed is {want!r}"})
+        del perm_calls[:]
     try:
         await sess.run([["connect"]])
         cwd = None
@@ -177,6 +208,7 @@ async def wire_case(net, hyg, plan):
             r = rng.random()
             if cur is None or r < 0.05:
                 cur = rng.choice(sorted(USERS))
+                state["rnfr"] = None
                 await sess.run([["login", cur, "pw"]])
                 cwd = USERS[cur][1]
                 transcript.append(["login", cur])
@@ -186,13 +218,20 @@ async def wire_case(net, hyg, plan):
                 same_home = [u for u in sorted(USERS) if u != cur and USERS[u][1] == USERS[cur][1]] or [u for u in sorted(USERS) if u != cur]
                 prev_arg = transcript[-1][1]
                 cur = rng.choice(same_home)
+                state["rnfr"] = None
                 await sess.run([["login", cur, "pw"]])
                 cwd = USERS[cur][1]
                 transcript.append(["login", cur])
                 verb = rng.choice(["MLST", "RMD", "MKD", "DELE", "CWD", "RNFR"])
+                del perm_calls[:]
+                state["targets"] = {norm(cwd, prev_arg)}
                 await sess.run([["cmd", f"{verb} {prev_arg}"]])
+                state["targets"] = None
+                if verb == "RNFR" and sess.outcomes[-1][:1] == ["350"]:
+                    state["rnfr"] = norm(cwd, prev_arg)
                 if not sess.alive:
                     break
+                check_perm(verb, prev_arg, cwd)
                 code = sess.outcomes[-1][0] if sess.outcomes[-1] else None
                 transcript.append([verb, prev_arg, sess.outcomes[-1]])
                 if verb == "CWD" and code == "250":
@@ -208,20 +247,37 @@ async def wire_case(net, hyg, plan):
             verb = rng.choice(["CWD", "CWD", "CWD", "CDUP", "PWD", "MKD", "RMD", "DELE", "RNFR", "RNTO", "MLST", "RETR", "STOR",
                                "APPE", "LIST", "MLSD"])
             a = arg()
+            del perm_calls[:]
+            state["targets"] = {norm(cwd, ".." if verb == "CDUP" else a)} | ({state["rnfr"]} if verb == "RNTO" and state.get("rnfr") else set())
+            moved = None
             if verb in ("RETR", "STOR", "APPE", "LIST", "MLSD"):
-                await sess.run([["epsv"], ["xfer", verb, a, 5]])
+                if rng.random() < 0.3:
+                    # the working directory changes between the mark and the data connection: the transfer still is about
+                    # the location addressed when the command was given
+                    moved = rng.choice(["/", "a", "..", "/home", "/a/b", "u3/deep"])
+                    state["targets"].add(norm(cwd, moved))
+                    await sess.run([["epsv"], ["xfer", verb, a, 5, "after", 0, None, 0, ["CWD " + moved]]])
+                else:
+                    await sess.run([["epsv"], ["xfer", verb, a, 5]])
             elif verb in ("CDUP", "PWD"):
                 await sess.run([["cmd", verb]])
             else:
                 await sess.run([["cmd", f"{verb} {a}"]])
+            state["targets"] = None
+            if verb == "RNFR" and sess.outcomes[-1][:1] == ["350"]:
+                state["rnfr"] = norm(cwd, a)    # stays until it is used; a superset is enough here
             if not sess.alive:
                 break
             code = sess.outcomes[-1][0] if sess.outcomes[-1] else None
             transcript.append([verb, a, sess.outcomes[-1]])
+            if verb != "PWD":
+                check_perm(verb, a, cwd, norm(cwd, moved) if moved is not None else None)
             if verb == "CWD" and code == "250":
                 cwd = norm(cwd, a)
             elif verb == "CDUP" and code == "250":
                 cwd = norm(cwd, "..")
+            if moved is not None and "b:250" in sess.outcomes[-1]:
+                cwd = norm(cwd, moved)
             # PWD probe
             rep = await sess.peer.cmd("PWD")
             mon["pwd_vs_model"] += 1
@@ -241,6 +297,8 @@ async def wire_case(net, hyg, plan):
         return {"violations": viol, "monitors": mon, "sig": sig_of(transcript), "nontrivial": len(transcript) > 3,
                 "sample": {"transcript": transcript[:25]}}
     finally:
+        if orig_gp is not None:
+            aioftp.User.get_permissions = orig_gp
         w.cleanup()
 
 
